@@ -381,6 +381,7 @@ func jobsFor(prop, tier string) []job {
 	case "C14":
 		for _, d := range exitScenarios(big) {
 			add(d, true, cap, "exit")
+			js[len(js)-1].sc.BeyondExit = true
 		}
 	case "C05":
 		for _, m := range []string{"interrupt", "off"} {
